@@ -160,7 +160,20 @@ func (c *vacCase) run() {
 		i := c.r.Intn(nw)
 		db, t := dbs[i], tabs[i]
 		var what string
-		switch op := c.r.Intn(12); {
+		switch op := c.r.Intn(14); {
+		case op >= 12:
+			// a delete whose write time is older than the row's latest update (a lagging clock, or a
+			// writer that had not seen the update): the row's delete time and its latest write time differ
+			what = "delete stamped before the row's latest update"
+			k := 300 + c.r.Intn(5)
+			sqlh.Exec(db, fmt.Sprintf(`insert into "%s" values(?,?)`, t), k, "late")
+			tick()
+			delAt := marks[len(marks)-1]
+			tick()
+			sqlh.Exec(db, fmt.Sprintf(`update "%s" set a='later' where k=?`, t), k)
+			sqlh.Exec(db, "update s3db_conn set write_time=?", delAt.UTC().Format("2006-01-02 15:04:05.000000000"))
+			sqlh.Exec(db, fmt.Sprintf(`delete from "%s" where k=?`, t), k)
+			sqlh.Exec(db, "update s3db_conn set write_time=NULL")
 		case op < 4:
 			what = "insert"
 			sqlh.Exec(db, fmt.Sprintf(`insert into "%s" values(?,?)`, t), c.r.Intn(30), "v")
